@@ -104,7 +104,7 @@ func (p *Program) fieldWrites() map[*types.Func]map[string]bool {
 }
 
 func (p *Program) newGuardAnalysis() *guardAnalysis {
-	return &guardAnalysis{p: p, pe: pathEnv{p.Info, map[types.Object]ast.Expr{}}, fw: p.fieldWrites()}
+	return &guardAnalysis{p: p, pe: pathEnv{p.Info, map[types.Object]ast.Expr{}, map[types.Object]bool{}}, fw: p.fieldWrites()}
 }
 
 // mayReturn for cfg.New: calls to panic and os.Exit do not return.
@@ -230,6 +230,23 @@ func (ga *guardAnalysis) rangeBody(rs *ast.RangeStmt, f *facts) {
 		} else {
 			return
 		}
+	}
+	// `range X` iterates over the value X had when the loop began: if the body
+	// assigns X (removing elements, say), the key is an index into the old
+	// value and says nothing about the new one
+	reassigned := false
+	ast.Inspect(rs.Body, func(n ast.Node) bool {
+		if as, ok := n.(*ast.AssignStmt); ok {
+			for _, l := range as.Lhs {
+				if lp, ok := ga.pe.pathOf(l); ok && (lp == xp || hasPrefixPath(xp, lp)) {
+					reassigned = true
+				}
+			}
+		}
+		return true
+	})
+	if reassigned {
+		return
 	}
 	if rs.Key != nil {
 		if kp, ok := ga.pe.pathOf(rs.Key); ok {
@@ -432,6 +449,23 @@ func (ga *guardAnalysis) assign(n *ast.AssignStmt, f *facts) {
 			return
 		}
 	}
+	// v, err := f(...) with v a pointer: v is meaningful only where err == nil
+	if len(n.Lhs) == 2 && len(n.Rhs) == 1 {
+		if call, ok := ast.Unparen(n.Rhs[0]).(*ast.CallExpr); ok {
+			if tup, ok := ga.p.Info.TypeOf(call).(*types.Tuple); ok && tup.Len() == 2 {
+				_, isPtr := tup.At(0).Type().Underlying().(*types.Pointer)
+				isErr := types.Identical(tup.At(1).Type(), types.Universe.Lookup("error").Type())
+				vp, vok := ga.pe.pathOf(n.Lhs[0])
+				ep, eok := ga.pe.pathOf(n.Lhs[1])
+				if isPtr && isErr && vok && eok {
+					defer func() {
+						f.errOf[ep] = vp
+						f.errVal[vp] = true
+					}()
+				}
+			}
+		}
+	}
 	for i, l := range n.Lhs {
 		// x.F[i] = v leaves every length alone
 		if _, isIndex := ast.Unparen(l).(*ast.IndexExpr); isIndex {
@@ -537,6 +571,19 @@ func (ga *guardAnalysis) collectBoolDefs(body *ast.BlockStmt) {
 	for k := range ga.pe.boolDef {
 		delete(ga.pe.boolDef, k)
 	}
+	for k := range ga.pe.rangeKeys {
+		delete(ga.pe.rangeKeys, k)
+	}
+	ast.Inspect(body, func(n ast.Node) bool {
+		if rs, ok := n.(*ast.RangeStmt); ok && rs.Key != nil {
+			if id := identOf(rs.Key); id != nil {
+				if o := ga.p.Info.ObjectOf(id); o != nil {
+					ga.pe.rangeKeys[o] = true
+				}
+			}
+		}
+		return true
+	})
 	info := ga.p.Info
 	nAssign := map[types.Object]int{}
 	lastWrite := map[types.Object]token.Pos{} // latest assignment to (something rooted at) the object
